@@ -21,6 +21,15 @@ def seeds():
     return "\n".join(out)
 
 
+def seedcount():
+    ms = [json.load(open(f)) for f in sorted(glob.glob(os.path.join(HERE, "seeded", "*", "meta.json")))]
+    first = [m["id"] for m in ms if re.search(r"\b(missed|MISSED|UNDECIDED|engine error|mis-reported|brittle|textual AST shape)", m["result"])]
+    bounded_only = [m["id"] for m in ms if re.search(r"bounded stand-in only|by the bounded stand-in \(", m["result"])]
+    return ("%d seeded changes in total (two rounds); caught by the quick tier of the property's check: all. Missed, undecided or "
+            "reported for the wrong reason by the first version of the check, and the reason for a strengthening: %d (%s). Seen by the "
+            "bounded part only: %d (%s)." % (len(ms), len(first), ", ".join(first), len(bounded_only), ", ".join(bounded_only)))
+
+
 def findings():
     d = json.load(open(os.path.join(HERE, "known_findings.json")))
     out = ["**Repaired in /repo (one `fix:` commit each; the unedited suite stays at 250 passed + the 1 baseline failure):**", ""]
@@ -61,7 +70,7 @@ def evidence():
 def main():
     p = os.path.join(HERE, "DESIGN.md")
     s = open(p).read()
-    for name, fn in (("SEEDS", seeds), ("FINDINGS", findings), ("EVIDENCE", evidence)):
+    for name, fn in (("SEEDS", seeds), ("SEEDCOUNT", seedcount), ("FINDINGS", findings), ("EVIDENCE", evidence)):
         a, b = "<!-- BEGIN GENERATED %s -->" % name, "<!-- END GENERATED %s -->" % name
         if a in s and b in s:
             s = s[:s.index(a) + len(a)] + "\n" + fn() + "\n" + s[s.index(b):]
